@@ -59,7 +59,7 @@ def lean_line(line):
     if len(toks) < 2:
         return line
     bases = ",".join((b[0] + {"t": "k", "u": "g"}.get(b[1:], b[1:])) if len(b) == 2 else b for b in toks[0].split(","))
-    return " ".join([bases, toks[1].replace("+m", "").split("@")[0]] + toks[2:])
+    return " ".join([bases, toks[1].replace("+m", "").replace("+r", "").split("@")[0]] + toks[2:])
 
 
 def model_request(line, impl):
@@ -154,6 +154,9 @@ def gen_case(rng, params):
     elif r < 0.55:
         # one class of the composition provides two kinds of step
         delay += "+m"
+    elif r < 0.65:
+        # a step mixin is refined by a subclass that overrides the hook and delegates to it
+        delay += "+r"
     sessions = [gen_session(rng, bases, pts) for _ in range(rng.choice([1, 1, 2, 3]))]
     return " ".join([",".join(bases), delay] + sessions)
 
@@ -196,8 +199,8 @@ def classify(line, obs):
     bases = toks[0].split(",")
     ks = ["steps=%d" % len([b for b in bases if b != "h"]), "connector=" + ("console" if any(b[0] == "l" for b in bases) else "stub"),
           "power=" + (str([b for b in bases if b[0] in "iw"].index("w")) if "w" in bases else "none"),
-          "hook=%d" % ("h" in bases), "sessions=%d" % (len(toks) - 2), "delay=" + ("0" if toks[1].replace("+m", "").split("@")[0] == "0" else ">0"),
-          "class=" + ("derived" if "@" in toks[1] else "two-role-mixin" if "+m" in toks[1] else "flat"),
+          "hook=%d" % ("h" in bases), "sessions=%d" % (len(toks) - 2), "delay=" + ("0" if toks[1].replace("+m", "").replace("+r", "").split("@")[0] == "0" else ">0"),
+          "class=" + ("derived" if "@" in toks[1] else "two-role-mixin" if "+m" in toks[1] else "refined-mixin" if "+r" in toks[1] else "flat"),
           "suppressing-step=%d" % any(len(b) == 2 and b[1] in "tu" for b in bases)]
     canon = ["i" if b == "w" else b[0] for b in bases if b != "h" and b[0] != "l"]
     ks.append("order=" + ("documented" if canon == sorted(canon, key="pcisq".index) else "shuffled"))
@@ -241,8 +244,8 @@ def shrink_candidates(line):
     """drop a session, a fault, a body op pair or marker, a base class (renumbering the ids), the delay, a gap"""
     toks = line.split()
     bases, delay, sess = toks[0].split(","), toks[1], toks[2:]
-    if "@" in delay or "+m" in delay:
-        yield " ".join([toks[0], delay.replace("+m", "").split("@")[0]] + sess)
+    if "@" in delay or "+m" in delay or "+r" in delay:
+        yield " ".join([toks[0], delay.replace("+m", "").replace("+r", "").split("@")[0]] + sess)
     for i in range(len(sess)):
         yield " ".join([toks[0], delay] + sess[:i] + sess[i + 1:])
     for i, s in enumerate(sess):
@@ -269,7 +272,7 @@ def shrink_candidates(line):
             yield put(gap="0")
         if sty != "E":
             yield put(sty="E")
-    if delay.replace("+m", "").split("@")[0] != "0":
+    if delay.replace("+m", "").replace("+r", "").split("@")[0] != "0":
         yield " ".join([toks[0], "@".join(["0"] + delay.split("@")[1:])] + sess)
     for i, b in enumerate(bases):
         if b[0] in "cs":
